@@ -23,6 +23,7 @@ class Method:
         self.name, self.ret, self.params, self.section = name, ret, params, section
         self.static, self.const, self.virtual, self.pure = static, const, virtual, pure
         self.comment, self.kind, self.deleted, self.explicit = comment, kind, deleted, explicit
+        self.overrides = False      # repeats the signature of a virtual function of a (direct or indirect, any access) base without `virtual`
 
     def n_defaults(self):
         return sum(1 for p in self.params if p.default is not None)
@@ -259,6 +260,24 @@ def gen_header(rng, n_classes=3, sections=("__published", "public"), allow_inher
                        virtual=(not st and allow_virtual and rng.random() < 0.2),
                        comment=("doc of %s::%s" % (c.name, nm)) if rng.random() < comments else None)
             c.items.append(m)
+        # overriders that do not repeat `virtual`: virtual all the same, through a base of any access
+        if allow_virtual and c.bases:
+            cands = []
+            todo = [b for b, _, _ in c.bases]
+            while todo:
+                bn = todo.pop()
+                bc = next(x for x in h.classes if x.name == bn)
+                cands += [bm for bm in bc.methods() if bm.kind == "method" and (bm.virtual or bm.overrides) and not bm.static]
+                todo += [b for b, _, _ in bc.bases]
+            rng.shuffle(cands)
+            for bm in cands[:rng.choice([0, 1, 1, 2])]:
+                if any(s[0] == bm.name for s in sigs):
+                    continue
+                sigs.add((bm.name, tuple(p.ty for p in bm.params)))
+                m = Method(bm.name, bm.ret, [Param(p.ty, p.name) for p in bm.params], rng.choice(sections), const=bm.const,
+                           virtual=rng.random() < 0.3, comment=("doc of %s::%s" % (c.name, bm.name)) if rng.random() < comments else None)
+                m.overrides = True
+                c.items.append(m)
         if allow_fields:
             for k in range(rng.randrange(0, 3)):
                 c.items.append(Field(rng.choice(scal), "_" + fresh(rng.choice(WORDS)), rng.choice(sections),
